@@ -250,6 +250,39 @@ fn ob_c17_captures_index_span(ks: [u8; 3], starts: [usize; 3], lens: [usize; 3])
     core::mem::forget(glob);
 }
 
+//@ob C17.captures.branches
+//@ props: C17 C05
+//@ kind: bounded(a top-level concatenation literal, BRANCH, `?` where the branch is an alternation of two leaves or a repetition of a leaf; spans symbolic)
+//@ unwind: 6
+//@ fns: src/lib.rs::Glob::captures src/token/mod.rs::Token::is_capturing src/token/mod.rs::BranchKind::is_capturing
+//@ pre: a glob whose top-level concatenation is a literal, then an alternation or a repetition, then a `?`
+//@ post: the REAL Glob::captures reports the branch as capture 1 with the span of the WHOLE branch and the `?` as capture 2 -- alternations and repetitions capture as one group, their inner tokens do not add captures
+fn ob_c17_captures_branches(starts: [usize; 3], lens: [usize; 3]) {
+    use crate::token::verif_kani_token::{leaf_token_spanned, spanned_branch_token};
+    captures_branch_case(0, starts, lens);
+    captures_branch_case(2, starts, lens);
+}
+fn captures_branch_case(bk: u8, starts: [usize; 3], lens: [usize; 3]) {
+    use crate::token::verif_kani_token::{leaf_token_spanned, spanned_branch_token};
+    let glob = mk_glob(vec![
+        leaf_token_spanned(0, (starts[0], lens[0])),
+        spanned_branch_token(bk, (starts[1], lens[1])),
+        leaf_token_spanned(1, (starts[2], lens[2])),
+    ]);
+    let mut it = glob.captures();
+    match it.next() {
+        Some(capture) => assert!(capture.index() == 1 && capture.span() == (starts[1], lens[1]), "C17/C04 a top-level alternation / repetition is one capture with the span of the whole branch"),
+        None => assert!(false, "C17/C04 alternations and repetitions capture"),
+    }
+    match it.next() {
+        Some(capture) => assert!(capture.index() == 2 && capture.span() == (starts[2], lens[2]), "C17/C04 tokens inside a branch add no captures"),
+        None => assert!(false, "C17/C04 the wildcard after the branch is capture 2"),
+    }
+    assert!(it.next().is_none(), "C17/C04 nothing else captures");
+    core::mem::forget(it);
+    core::mem::forget(glob);
+}
+
 //@ob C18.lib.canary
 //@ props: C18 C11
 //@ kind: canary
